@@ -5,9 +5,11 @@ pub mod c01;
 pub mod c02;
 pub mod c03;
 pub mod c14;
+pub mod c15;
+pub mod c16;
 
 pub fn all() -> Vec<Prop> {
-    vec![c01::prop(), c02::prop(), c03::prop(), c14::prop()]
+    vec![c01::prop(), c02::prop(), c03::prop(), c14::prop(), c15::prop(), c16::prop()]
 }
 
 /// Auxiliary child entry points used by custom stages (`verif aux --prop ID ...`).
